@@ -63,14 +63,16 @@ fn new_bytecode<'gc>(
     } = m;
     let bytecode_function = new_bytecode_function(interner, gc, vm, function)?;
 
+    // A compiled module may come from deserialized bytecode which can refer to globals that this
+    // vm has not loaded (or that do not exist at all), report that as an error
     let globals = module_globals
         .into_iter()
         .map(|index| {
             env.get_global(index.definition_name())
-                .expect("ICE: Global is missing from environment")
-                .value
+                .map(|global| global.value)
+                .ok_or_else(|| Error::UndefinedBinding(index.definition_name().into()))
         })
-        .collect::<Vec<_>>();
+        .collect::<Result<Vec<_>>>()?;
 
     // SAFETY No collection are done while we create these functions
     unsafe {
